@@ -78,7 +78,8 @@ _TABLE_CACHE = {}
 
 def element_table(P, Env, op):
     """per-element effect of one operation: {(origin list, predicate value, id given): [path summaries]} (sa/elem.py)"""
-    key = (id(P), op)
+    _TABLE_CACHE = P.__dict__.setdefault('_elem_tables', {})        # per Program object (never keyed by id(): addresses are re-used)
+    key = op
     if key not in _TABLE_CACHE:
         t = {}
         for origin in LISTS:
@@ -257,9 +258,11 @@ def check(ctx):
 
 
 CLAIM = {
-    'technique': 'static analysis: effect-summary extraction of the three selection loops (source lists, normalised predicate, '
-                 'ordered per-event actions), linear normal form of the resume time, who-may-write inventories',
-    'level_text': 'The three operations are shown to have exactly the effect summaries the property describes, on every path; '
+    'technique': 'static analysis: per-element abstract execution of pause / unpause / cancel (sa/elem.py: membership multiplicity of one arbitrary event in '
+                 'every list, attribute writes with substituted right-hand sides, order preservation of the sorted list, helper inlining, path forking), '
+                 'linear normal form of the resume time, who-may-write / who-may-call inventories closed under private helpers',
+    'level_text': 'For every origin list and both values of the selection predicate the effect of each operation on one arbitrary event is computed on every path '
+                  'and compared with the effect the property describes (which list it ends up in, how often, which attributes change to what, in which order); '
                   'sequences of operations are not executed or compared with a reference model.',
     'level_note': 'Trusts list.remove/bisect semantics; Event has no __eq__, so remove(x) removes x itself.',
 }
